@@ -107,7 +107,10 @@ def strategy(tier):
 def build_case(spec, compliance=None):
     """Returns (system, element, interaction). compliance overrides the element's form (used by C07)."""
     system = sysbuild.new_system(spec["t0"])
-    bodies = [build.make_body(b, name=f"s{i+1}") for i, b in enumerate(spec["bodies"])]
+    from harness import rodbuild
+
+    bodies = [rodbuild.make_rod(b["rod"], name=f"s{i+1}")[0] if b["kind"] == "rod" else build.make_body(b, name=f"s{i+1}")
+              for i, b in enumerate(spec["bodies"])]
     system.add(*bodies)
     inter = None
     if spec["inter"] == "tpi":
